@@ -207,6 +207,23 @@ def t2(prog, rep):
     want = [ord(c) for c in rfc] + [ord("=")] + [0]
     rep.check(tb is not None and (tb == want or tb + [0] == want), "T2-alphabet", "b64chars", (u.global_("b64chars") or {}).get("loc", ""),
               "must be RFC 4648's alphabet (A-Z a-z 0-9 + /) followed by '=' at index 64", function="b64chars", construct="table")
+    t2_hexify(prog, rep)
+    # the decoders reduce the table position with the matching mask
+    for up, fn, mask in (("util/hexify.c", "unhexify", 0x0f), ("util/b64encode.c", "b64decode", 0x3f)):
+        f = prog.func(up, fn)
+        if not rep.names(f, "pos"):
+            continue
+        masks = [e for e in f.all_elems() if e.cls == "BinaryOperator" and e.op == "&" and e.kid(1) is not None and e.kid(1).strip().val is not None and norm(e.kid(0))[0] == "v" and norm(e.kid(0))[1] == "pos"]
+        rep.check(bool(masks) and all(m.kid(1).strip().val == mask for m in masks), "T2-alphabet", "%s reduces the table position with & %#x" % (fn, mask), f.loc,
+                  "found %s" % [hex(m.kid(1).strip().val) for m in masks], function=fn, construct="mask")
+    # b64encode pads with '='
+    f = prog.func("util/b64encode.c", "b64encode")
+    pads = [e for e in f.all_elems() if e.is_assign and e.op == "=" and norm(e.kid(1)) == ("c", ord("="))]
+    rep.check(len(pads) == 1, "T2-alphabet", "b64encode pads with '='", f.loc, "", function="b64encode", construct="pad")
+
+
+def t2_hexify(prog, rep):
+    """The hex table and the order hexify emits nibbles in (also what C19's signatures are printed with)."""
     u = prog.unit("util/hexify.c")
     th = u.global_ints("hexchars")
     if th is not None and len(th) == 32:
@@ -221,14 +238,6 @@ def t2(prog, rep):
                 ok = False
     rep.check(ok, "T2-alphabet", "hexchars", (u.global_("hexchars") or {}).get("loc", ""),
               "hexchars[i] must be the hex digit of i & 15, lower case for i < 16 (decoding takes pos & 15)", function="hexchars", construct="table")
-    # the decoders reduce the table position with the matching mask
-    for up, fn, mask in (("util/hexify.c", "unhexify", 0x0f), ("util/b64encode.c", "b64decode", 0x3f)):
-        f = prog.func(up, fn)
-        if not rep.names(f, "pos"):
-            continue
-        masks = [e for e in f.all_elems() if e.cls == "BinaryOperator" and e.op == "&" and e.kid(1) is not None and e.kid(1).strip().val is not None and norm(e.kid(0))[0] == "v" and norm(e.kid(0))[1] == "pos"]
-        rep.check(bool(masks) and all(m.kid(1).strip().val == mask for m in masks), "T2-alphabet", "%s reduces the table position with & %#x" % (fn, mask), f.loc,
-                  "found %s" % [hex(m.kid(1).strip().val) for m in masks], function=fn, construct="mask")
     # hexify emits the high nibble first
     f = prog.func("util/hexify.c", "hexify")
     idx = []
@@ -239,11 +248,72 @@ def t2(prog, rep):
         idx.append((s.op, s.kid(1).strip().val) if s is not None and s.cls == "BinaryOperator" else None)
     rep.check(idx == [(">>", 4), ("&", 15)], "T2-alphabet", "hexify writes the high nibble, then the low nibble", f.loc, "found %s" % idx,
               function="hexify", construct="nibble-order")
-    # b64encode pads with '='
-    f = prog.func("util/b64encode.c", "b64encode")
-    pads = [e for e in f.all_elems() if e.is_assign and e.op == "=" and norm(e.kid(1)) == ("c", ord("="))]
-    rep.check(len(pads) == 1, "T2-alphabet", "b64encode pads with '='", f.loc, "", function="b64encode", construct="pad")
+    hexify_layout(prog, rep)
 
+
+def hexify_layout(prog, rep):
+    """hexify's output layout, relationally (sa/poly.py), however the loop is written: the high nibble of in[j] is stored at
+    out + 2j, the low nibble at out + 2j + 1, with 0 <= j < len at both, and the terminating NUL at out + 2*len."""
+    from .. import poly
+    from ..poly import Lin
+    f = prog.func("util/hexify.c", "hexify")
+    if f is None:
+        raise cdb.AnalysisBroken("anchor missing: hexify")
+    pin, pout, plen = [("v", p["name"], p["id"]) for p in f.params[:3]]
+    O0, N0 = Lin.var(("$entry", "out")), Lin.var(("$entry", "len"))
+    A = poly.Analysis(f, assume=[("==", Lin.var(pout), O0), ("==", Lin.var(plen), N0), (">=", N0, Lin.const(0))],
+                      unsigned_terms={plen, ("$entry", "len")}).run()
+
+    def addr(e):
+        lhs = e.kid(0).strip()
+        if lhs.cls == "UnaryOperator" and lhs.op == "*":
+            sub = lhs.kid(0).strip()
+            if sub.is_incdec and sub.op == "post++":
+                st = A.state_before(sub)
+                return A.lin(sub.kid(0), st), st
+            st = A.state_before(e)
+            return A.lin(sub, st), st
+        if lhs.cls == "ArraySubscriptExpr":
+            st = A.state_before(e)
+            b, i = A.lin(lhs.kid(0), st), A.lin(lhs.kid(1), st)
+            return (b + i if b is not None and i is not None else None), st
+        return None, None
+    seen = {"hi": 0, "lo": 0, "nul": 0}
+    for e in f.all_elems():
+        if not (e.is_assign and e.op == "="):
+            continue
+        lhs = norm(e.kid(0))
+        if lhs[0] not in ("*", "[]"):
+            continue
+        v = norm(e.kid(1))
+        a, st = addr(e)
+        if v == ("c", 0):
+            seen["nul"] += 1
+            rep.check(a is not None and A.holds(st, "==", a, O0 + N0.scale(2)), "T2-layout", "hexify: the NUL goes to out + 2*len", e.where,
+                      "address %s" % a, function="hexify", construct="nul")
+            continue
+        if not (v[0] == "[]" and v[1][0] == "v" and v[1][1] == "hexchars"):
+            rep.bad("T2-layout", "hexify: store of something other than a hex digit or the NUL", e.where, show(v), function="hexify", construct="store")
+            continue
+        ix = v[2]
+        which = "hi" if ix[0] == ">>" and ix[2] == ("c", 4) else "lo" if ix[0] == "&" and ix[2] == ("c", 15) else None
+        src = ix[1] if which else None
+        j = None
+        if src is not None and src[0] == "[]" and src[1] == pin:
+            # the element of the value read: find it to ask for its index in the state of the store
+            for x in f.all_elems():
+                if x.cls == "ArraySubscriptExpr" and norm(x) == src and x.block.id == e.block.id and x.i < e.i:
+                    j = A.lin(x.kid(1), A.state_before(e))
+        if which is None or j is None:
+            rep.bad("T2-layout", "hexify: digit store", e.where, "value %s is not the high or low nibble of in[j]" % show(v), function="hexify", construct="store")
+            continue
+        seen[which] += 1
+        off = 0 if which == "hi" else 1
+        ok = a is not None and A.holds(st, "==", a, O0 + j.scale(2) + Lin.const(off)) and A.holds(st, ">=", j, Lin.const(0)) and A.holds(st, "<", j, N0)
+        rep.check(ok, "T2-layout", "hexify: the %s nibble of in[j] goes to out + 2j%s, 0 <= j < len" % ("high" if which == "hi" else "low", " + 1" if off else ""),
+                  e.where, "address %s, j = %s" % (a, j), function="hexify", construct=which)
+    rep.check(seen == {"hi": 1, "lo": 1, "nul": 1}, "T2-layout", "hexify: one high-nibble store, one low-nibble store, one NUL store", f.loc, "%s" % seen,
+              function="hexify", construct="stores")
 
 
 def t2_padding(prog, rep):
